@@ -169,12 +169,46 @@ def exit_chain(P, R):
     R.floor('C10.WIRE.2', 8)
 
 
+def module_lifetime(P, R, rule='C10.WIRE.3'):
+    """Requests are released by the core module, which is unloaded last (every decision module depends on it):
+    a callback stored inside a request that points into a decision module would be called, at exit with a request
+    still pending, after that module's code has been unmapped.  So function pointers stored into (objects embedded
+    in) a request are functions of the core unit or of the daemon proper."""
+    core_unit = P.need_fn('module_destructor', 'modules/iauth_core.c').unit
+    n = 0
+    for f in P.fns.values():
+        if f.unit.startswith('tests/'):
+            continue
+        for s in f.stores():
+            ev = s.ev
+            if ev['k'] != 'store' or (ev.get('rhs') or {}).get('k') != 'func':
+                continue
+            if not any(x.get('k') == 'mem' and x.get('rec') == core.REQ_REC for x in walk(ev['lhs'])):
+                continue
+            n += 1
+            tgt = P.direct_target(f, ev['rhs']['name'])
+            ok = tgt is None or tgt.unit == core_unit or tgt.unit.startswith('src/')
+            R.ob(rule, ok, s, 'the callback %s stored into a request (%s) lives in %s, which outlives every request' % (ev['rhs']['name'], sx(ev['lhs']), tgt.unit if tgt else 'a library'),
+                 key='req-callback:%s' % ev['rhs']['name'])
+        for s in f.calls():
+            # set_alloc / set_init style: a request's embedded set given its callbacks through a call
+            if any(x.get('k') == 'mem' and x.get('rec') == core.REQ_REC for a in s.ev['args'] for x in walk(a)):
+                for a in s.ev['args']:
+                    if a.get('k') == 'func':
+                        n += 1
+                        tgt = P.direct_target(f, a['name'])
+                        ok = tgt is None or tgt.unit == core_unit or tgt.unit.startswith('src/')
+                        R.ob(rule, ok, s, 'the callback %s attached to a request lives in %s, which outlives every request' % (a['name'], tgt.unit if tgt else 'a library'), key='req-callback:%s' % a['name'])
+    R.ob(rule, True, P.need_fn('module_destructor', 'modules/iauth_core.c'), 'scanned every store of a function into a request: %d found' % n, key='scan', nontrivial=False)
+
+
 def run(P, R, tier):
     table_sites(P, R)
     cl = cleanup_fn(P, R)
     timer_lifecycle(P, R, cl)
     stats_binding(P, R)
     exit_chain(P, R)
+    module_lifetime(P, R)
     uar.check(P, R, 'C10.UAR.1')
     # the table's balance rests on the container's pairing rules (anchor: src/set.c insert-replace)
     disp = c19.cleanup_callers(P, R, 'C10.SET.WMC')
